@@ -663,7 +663,7 @@ class RF24:
             raise ValueError("auto_ack: {} is not a valid input".format(enable))
         self._reg_write(AUTO_ACK, self._aa)
 
-    def set_auto_ack(self, enable: bool, pipe_number: int):
+    def set_auto_ack(self, enable: bool, pipe_number: Optional[int] = None):
         """Control the `auto_ack` feature for a specific data pipe."""
         if pipe_number is None:
             self.auto_ack = bool(enable)
@@ -673,7 +673,7 @@ class RF24:
         else:
             raise IndexError("pipe_number must be in range [0, 5]")
 
-    def get_auto_ack(self, pipe_number: int) -> bool:
+    def get_auto_ack(self, pipe_number: int = 0) -> bool:
         """Returns a `bool` describing the `auto_ack` feature about a data pipe."""
         if 0 <= pipe_number <= 5:
             self._aa = self._reg_read(AUTO_ACK)
